@@ -190,7 +190,7 @@ def _movable(e):
     for n in ast.walk(e):
         if isinstance(n, ast.Call) and not _noeffect(n):
             return False
-        if isinstance(n, (ast.NamedExpr, ast.Yield, ast.YieldFrom, ast.Await, ast.Lambda, ast.Starred)):
+        if isinstance(n, (ast.NamedExpr, ast.Yield, ast.YieldFrom, ast.Await, ast.Lambda)):
             return False
     return True
 
@@ -258,6 +258,19 @@ def _writes(st, own=True):
         elif isinstance(n, (ast.FunctionDef, ast.ClassDef)):
             names.add(n.name)
     return names, paths, calls
+
+
+def _interferes_names(expr, stmts):
+    """only re-binding of plain names (and of the attribute path itself) the expression reads"""
+    rn, rp, _ = _reads(expr)
+    for st in stmts:
+        wn, wp, _wc = _writes(st)
+        if rn & wn:
+            return True
+        for p in wp:
+            if any(p == q[:len(p)] and isinstance(st, ast.Assign) and any(isinstance(t, ast.Attribute) and _path(t) == p for t in st.targets) for q in rp):
+                return True
+    return False
 
 
 def _prefix(a, b):
@@ -1307,7 +1320,10 @@ def _copyprop_scope(fn, only=None):
                     if not _movable(st.value):
                         continue
                     lds = [n for n in _own_walk(fn) if isinstance(n, ast.Name) and n.id == t and isinstance(n.ctx, ast.Load)]
-                    recv = [n for n in _own_walk(fn) if isinstance(n, (ast.Attribute, ast.Subscript)) and isinstance(n.value, ast.Name) and n.value.id == t]
+                    recv = [n for n in _own_walk(fn) if isinstance(n, (ast.Attribute, ast.Subscript)) and isinstance(n.value, ast.Name) and n.value.id == t
+                            and isinstance(getattr(n, 'ctx', None), (ast.Store, ast.Del))]
+                    recv += [n for n in _own_walk(fn) if isinstance(n, ast.Call) and isinstance(n.func, ast.Attribute) and isinstance(n.func.value, ast.Name)
+                             and n.func.value.id == t and not _noeffect(n)]
                     in_loop = [n for s2 in body[i + 1:] if isinstance(s2, (ast.For, ast.While)) for n in ast.walk(s2) if isinstance(n, ast.Name) and n.id == t]
                     if len(lds) != 1 or recv or in_loop:
                         continue
@@ -1315,6 +1331,12 @@ def _copyprop_scope(fn, only=None):
                     continue
                 rest = body[i + 1:]
                 done = 0
+                # `t = X[c]` whose every use is `t[...]`: t is a view of / reference into X, not a copied scalar, so what a use
+                # sees is X's content at the time of the use in both spellings; only re-binding of the names involved matters
+                all_t = [n for n in _own_walk(fn) if isinstance(n, ast.Name) and n.id == t and isinstance(n.ctx, ast.Load)]
+                sub_bases = {id(n.value) for n in _own_walk(fn) if isinstance(n, ast.Subscript) and isinstance(n.value, ast.Name) and n.value.id == t}
+                view_like = isinstance(st.value, ast.Subscript) and isinstance(st.value.slice, ast.Constant) and type(st.value.slice.value) is int \
+                    and isinstance(st.value.value, ast.Attribute) and bool(all_t) and all(id(n) in sub_bases for n in all_t)
                 for k, s in enumerate(rest):
                     uses = [n for n in ast.walk(s) if isinstance(n, ast.Name) and n.id == t and isinstance(n.ctx, ast.Load)]
                     rebinding = _binds_name(s, t)
@@ -1324,7 +1346,7 @@ def _copyprop_scope(fn, only=None):
                             break
                         # a simple statement evaluates its reads before its own stores; a compound one may interleave
                         chk = rest[:k] if simple else rest[:k + 1]
-                        if _interferes(st.value, chk, local_fns):
+                        if _interferes(st.value, chk, local_fns) and not (view_like and not _interferes_names(st.value, chk)):
                             break
                         rest[k] = _Subst({t: st.value}).visit(s)
                         done += 1
